@@ -102,6 +102,10 @@ func opStep(r *core.RNG, pool *Pool, s *Swarm, d *genDID, kind ref.OpKind, fault
 			st.AnchoredKind = others[(r.Intn(3)+1+indexOf(others, st.Kind))%4]
 		}
 	}
+	if fault == ref.FNone && kind != ref.Deactivate && r.Chance(1, 12) {
+		// at the limit or one byte below (valid); GenFold also asks for one byte above (invalid)
+		st.PadDelta, st.PadKind = r.Range(1, 2), r.Intn(6)
+	}
 	st.Builder = "raw"
 	st.Via = "direct"
 	if fault == ref.FNone {
@@ -247,6 +251,9 @@ func GenFold(prop string, seed uint64, variant int, pool *Pool) *Plan {
 			fault = core.Pick(r, classesFor(kind, s, s.ChainMode))
 		}
 		st := opStep(r, pool, s, d, kind, fault, s.ChainMode)
+		if st.PadDelta > 0 && r.Chance(1, 3) {
+			st.PadDelta = 3
+		}
 		if heavy && r.Chance(1, 5) {
 			st.Delay = r.Intn(int(s.BlockInterval) * 2)
 		}
